@@ -9,6 +9,8 @@ from pymemcache.fallback import FallbackClient
 
 PROPERTY = "C18"
 LEVEL = "exploration"
+# parts repeated in a child interpreter started with -O and with warnings turned into errors (vlib/runner.py, MODES)
+MODE_PARTS = {"OW": ['reads-scripted', 'writes-scripted', 'a-cache-that-raises', 'used-again-after-close', 'reconfigured-cache-list', 'reads-key-kinds-and-shapes']}
 RULE = ("exhaustive: 1..4 caches x every hit/miss assignment per cache (multi-key reads: every present/absent "
         "assignment of 2 keys per cache) x every read operation; every write operation x argument grid (expire, "
         "noreply, delta given positionally / by keyword / omitted) x 1..3 caches. Back-ends: scripted recording caches "
